@@ -5,6 +5,7 @@ the witness is a finished run of the driver model with the observed log and the 
 import SltVerif.CliTrace
 import SltVerif.Lemmas.CliDriver
 import SltVerif.Lemmas.CliExample
+import SltVerif.Lemmas.CliSimBase
 namespace Slt
 
 theorem drunAt_ok {c : DCfg} : ∀ (ls : List DLabel) (s s' : DSt) (k : Nat),
@@ -133,6 +134,23 @@ theorem traceCheck_complete {c : DCfg} {labels : List DLabel} {observed : List C
   rw [if_neg (by simp [h.finished]), h.log, firstDiff_self]
   simp only
   rw [if_neg (by simp [h.ntags]), firstWrongResult_of_all _ h.results]
+
+theorem dwf_of_dwfB {c : DCfg} {mgmt : Str} (h : dwfB c mgmt = true) : DWf c mgmt := by
+  unfold dwfB at h
+  simp only [Bool.and_eq_true, decide_eq_true_eq, List.all_eq_true] at h
+  obtain ⟨⟨hn, hs⟩, hm⟩ := h
+  refine ⟨hn, ?_, hm⟩
+  intro f hf
+  obtain ⟨hlen, hpre⟩ := hs f hf
+  have hpre' : (testCaseName f.path ++ ['_']) <+: f.db := List.isPrefixOf_iff_prefix.mp hpre
+  have hsuf : testCaseName f.path ++ ['_'] ++ f.db.drop (testCaseName f.path ++ ['_']).length = f.db :=
+    List.prefix_iff_eq_append.mp hpre'
+  refine ⟨f.db.drop (testCaseName f.path ++ ['_']).length, ?_, ?_⟩
+  · simp only [List.length_drop, List.length_append, List.length_cons, List.length_nil]
+    omega
+  · unfold dbName
+    rw [← hsuf]
+    simp
 
 /-- the log of the example run `exRunClose` (used by the examples next to the property theorems) -/
 def exCloseLog : List CEv :=
